@@ -5,6 +5,9 @@ package main
 func init() {
 	extraNatives = append(extraNatives, func(e *Engine) {
 		n := e.natives
+		// process environment: unset (the defaults of the code under test apply)
+		n["os.Getenv"] = func(x *Exec, fr *frame, a []Value) Value { return "" }
+		n["os.LookupEnv"] = func(x *Exec, fr *frame, a []Value) Value { return Tuple{"", false} }
 		// compiler intrinsic without a Go body
 		n["crypto/internal/constanttime.boolToUint8"] = func(x *Exec, fr *frame, a []Value) Value {
 			switch b := a[0].(type) {
